@@ -46,7 +46,7 @@ pub fn run(cfg: &Cfg, rep: &mut Report) {
     let mut rng = Rng::new(cfg.seed ^ 0xC02);
     let corpus = Corpus::load();
     rep.rule = "documents (grammar with hostile payloads in info strings, titles, alt text, footnote names, alert titles, math, labels, cells, autolinks, wikilinks, reference definitions; palette; bytes; corpus) and directly built trees without Raw nodes x random option vectors with unsafe_ = false; distinct_nontrivial counts distinct (node-kind sequence, option bits) classes".into();
-    let n = if cfg.tier_thorough { 150_000 } else if cfg.full { 40_000 } else { 8_000 };
+    let n = if cfg.tier_thorough { 150_000 } else if cfg.full { 40_000 } else { 24_000 };
     let mut done = 0;
     while done < n {
         let mut bt = Batch::new();
